@@ -469,6 +469,8 @@ static int32 HCIcrle_encode(compinfo_t *info, int32 length, const uint8 *buf)
     __CPROVER_ensures(__CPROVER_return_value == SUCCEED || __CPROVER_return_value == FAIL)
     /* with a well-formed state only an I/O failure makes the encoder fail */
     __CPROVER_ensures(__CPROVER_return_value == FAIL ==> g_io_failed == 1)
+    /* what the state holds now is encoder output waiting to be flushed (HCPcrle_endaccess / HCPcrle_seek flush only that) */
+    __CPROVER_ensures(RF(info, encoding) == 1)
     __CPROVER_ensures(__CPROVER_return_value == SUCCEED ==> ENC_WF(RI(info)))
     /* every packet emitted is complete */
     __CPROVER_ensures(__CPROVER_return_value == SUCCEED ==> g_wst == 0)
@@ -482,8 +484,10 @@ static int32 HCIcrle_term(compinfo_t *info)
     __CPROVER_requires(info != NULL && info->aid == g_aid && ENC_WF(RI(info)))
     __CPROVER_requires(g_wst == 0 && g_emit >= 0 && RF(info, offset) >= 0 && g_emit == RF(info, offset) - PENDING(RI(info)))
     __CPROVER_requires(g_k >= 0 && ENC_CODED(RI(info)))
-    __CPROVER_assigns(RF(info, rle_state), RF(info, last_byte), RF(info, second_byte), G_ALL; g_disk != NULL: __CPROVER_object_whole(g_disk))
+    __CPROVER_assigns(RF(info, rle_state), RF(info, encoding), RF(info, last_byte), RF(info, second_byte), G_ALL; g_disk != NULL: __CPROVER_object_whole(g_disk))
     __CPROVER_ensures(__CPROVER_return_value == SUCCEED || __CPROVER_return_value == FAIL)
+    /* after a flush nothing waits to be written out */
+    __CPROVER_ensures(__CPROVER_return_value == SUCCEED ==> RF(info, encoding) == 0)
     __CPROVER_ensures(__CPROVER_return_value == FAIL ==> (g_io_failed == 1 || __CPROVER_old(RF(info, rle_state)) == RLE_INIT))
     __CPROVER_ensures(__CPROVER_old(RF(info, rle_state)) == RLE_INIT ==> __CPROVER_return_value == FAIL)
     __CPROVER_ensures(__CPROVER_return_value == SUCCEED ==>
@@ -517,8 +521,9 @@ static int32 HCIcrle_init(accrec_t *access_rec)
     __CPROVER_requires(((compinfo_t *)access_rec->special_info)->aid == g_aid)
     __CPROVER_assigns(RF((compinfo_t *)access_rec->special_info, offset), RF((compinfo_t *)access_rec->special_info, rle_state),
                       RF((compinfo_t *)access_rec->special_info, last_byte), RF((compinfo_t *)access_rec->special_info, second_byte),
-                      RF((compinfo_t *)access_rec->special_info, buf_pos), G_ALL)
+                      RF((compinfo_t *)access_rec->special_info, buf_pos), RF((compinfo_t *)access_rec->special_info, encoding), G_ALL)
     __CPROVER_ensures(__CPROVER_return_value == SUCCEED || __CPROVER_return_value == FAIL)
+    __CPROVER_ensures(__CPROVER_return_value == SUCCEED ==> RF((compinfo_t *)access_rec->special_info, encoding) == 0)
     __CPROVER_ensures(__CPROVER_return_value == FAIL ==> g_io_failed == 1)
     __CPROVER_ensures(__CPROVER_return_value == SUCCEED ==>
                       (RF((compinfo_t *)access_rec->special_info, rle_state) == RLE_INIT &&
